@@ -26,7 +26,11 @@ PATTERN_ONLY = "https://sp.example.org/not-an-endpoint"   # matches the pattern 
 IRT = ("match", "unknown", "absent")
 SCD = ("match", "different", "absent", "nodata-then-different", "match-then-different")
 DEST = ("own", "foreign", "absent", "pattern-only", "own-plus-suffix", "own-prefix", "own-other-case", "own-with-query")
-AUD = ("none", "one-naming", "one-foreign", "two-both-naming", "two-one-foreign", "two-foreign-first", "empty-restriction", "naming-among-several-audiences")
+AUD = ("none", "one-naming", "one-foreign", "two-both-naming", "two-one-foreign", "two-foreign-first", "empty-restriction", "naming-among-several-audiences",
+       # one restriction names the SP, another one lists no usable audience at all / a near miss of the entity identifier
+       "two-naming+blank-audience", "two-blank-audience-first", "three-naming+whitespace-audience+naming", "two-naming+restriction-without-audience",
+       "two-naming+near-miss-slash", "two-near-miss-case-first")
+AUD_EXTRA = AUD[8:]
 RECIP = ("own", "foreign", "entityid")
 
 
@@ -38,6 +42,8 @@ def gen_cases(tier, seed):
             h = hash((irt, scd, dest, aud, rec, unsol, conv, pat, seed)) % 7
             conforming = irt == "match" and scd == "match" and dest in ("own", "absent") and aud in ("none", "one-naming", "two-both-naming") and rec != "foreign"
             if h and not conforming and not (aud.startswith("two") or aud == "one-foreign"):
+                continue
+            if aud in AUD_EXTRA and h % 3 and (dest != "own" or rec != "own" or irt != "match"):
                 continue
         for signed in ((0, 1) if tier == "thorough" else (0,)):
             cid = "irt:%s-scd:%s-dest:%s-aud:%s-rec:%s-u%d-c%d-p%d-%s" % (irt, scd, dest, aud, rec, unsol, conv, pat, "s" if signed else "p")
@@ -83,7 +89,10 @@ def _aud_xml(doc, layout):
     me, other, third = fed.SP_EID, "https://other-sp.example.net/md", "https://third.example.net/md"
     return {"none": "", "one-naming": ar(me), "one-foreign": ar(other), "two-both-naming": ar(me) + ar(me, other),
             "two-one-foreign": ar(me) + ar(other), "two-foreign-first": ar(other) + ar(me), "empty-restriction": ar(),
-            "naming-among-several-audiences": ar(other, me, third)}[layout]
+            "naming-among-several-audiences": ar(other, me, third),
+            "two-naming+blank-audience": ar(me) + ar(""), "two-blank-audience-first": ar("") + ar(me),
+            "three-naming+whitespace-audience+naming": ar(me) + ar(" \n ") + ar(me), "two-naming+restriction-without-audience": ar(me) + ar(),
+            "two-naming+near-miss-slash": ar(me) + ar(me + "/"), "two-near-miss-case-first": ar(me.upper()) + ar(me)}[layout]
 
 
 def _deliver(sp, xml, outstanding, binding, **kw):
@@ -167,7 +176,7 @@ def run_case(case, ctx):
             key = "C05/audience-restriction-not-naming-sp-accepted"
             if case["unsol"] and case["aud"] in ("one-foreign", "empty-restriction"):
                 key = "C05/audience-unchecked-when-unsolicited-allowed"
-            elif case["aud"] in ("two-one-foreign", "two-foreign-first"):
+            elif case["aud"] in ("two-one-foreign", "two-foreign-first") + AUD_EXTRA:
                 key = "C05/one-of-several-audience-restrictions-suffices" if not case["unsol"] else "C05/audience-unchecked-when-unsolicited-allowed"
         elif not r_solicit:
             key = "C05/unsolicited-response-accepted"
